@@ -41,8 +41,14 @@ func c16Call(b *vlib.Built, op string) (res string) {
 	case err != nil:
 		return "ERROR " + err.Error()
 	}
+	if op != "Title" {
+		c16Retain = out
+	}
 	return "OK " + string(out)
 }
+
+// c16Retain receives the slice returned by the last successful accessor call (single-threaded use inside one oracle call).
+var c16Retain []byte
 
 func c16Oracle(c *vlib.Case) *vlib.Violation {
 	b := vlib.Build(c.Project)
@@ -51,8 +57,27 @@ func c16Oracle(c *vlib.Case) *vlib.Violation {
 		return nil
 	}
 	model := map[string]string{}
+	// the slices handed out by earlier calls, with a copy taken at that moment: a later call must not write into them
+	type handed struct {
+		op   string
+		at   int
+		raw  []byte
+		copy string
+	}
+	var kept []handed
+	defer func() { c16Retain = nil }()
 	for i, op := range c.Ops {
+		c16Retain = nil
 		got := c16Call(b, op)
+		if c16Retain != nil {
+			kept = append(kept, handed{op, i, c16Retain, string(c16Retain)})
+		}
+		for _, h := range kept {
+			if string(h.raw) != h.copy {
+				d := firstDiffPos(h.copy, string(h.raw))
+				return vlib.V("c16:"+h.op+":returned-bytes-modified-later", "the bytes returned by call #%d (%s) were modified by call #%d (%s), at byte %d:\n returned: %s\n now:      %s", h.at, h.op, i, op, d, around(h.copy, d), around(string(h.raw), d))
+			}
+		}
 		want, seen := model[op]
 		if !seen {
 			model[op] = got
